@@ -102,6 +102,7 @@ TapkeeOutput embed(RandomAccessIterator begin, RandomAccessIterator end, KernelC
     try
     {
         parameters.check();
+        parameters.checkTypes(tapkee_internal::defaults);
         parameters.merge(tapkee_internal::defaults);
         parameters.visit([] (const stichwort::Parameter& p) {
             tapkee::Logging::instance().message_debug(fmt::format("Parameter {} = [{}]", p.name(), p.repr()));
